@@ -85,7 +85,8 @@ func (s *Set) serves(method, host, path string, o MatchOpts) bool {
 	if m.Route == nil {
 		return false
 	}
-	return !m.TSR || m.Route.IgnoreTS
+	// a CONNECT request never gets a trailing-slash action: a CONNECT route reached only by ignoring the slash does not serve
+	return !m.TSR || (m.Route.IgnoreTS && method != "CONNECT")
 }
 
 // Serve is the reference dispatcher. path is the path the router matches on (the raw path when the request has one).
